@@ -390,6 +390,18 @@ class SymInt(_SymNum):
     def __index__(self):
         return engine().concretize(self.t)
 
+    def __round__(self, ndigits=None):
+        return self
+
+    def __trunc__(self):
+        return self
+
+    def __floor__(self):
+        return self
+
+    def __ceil__(self):
+        return self
+
     def __hash__(self):
         return hash(engine().concretize(self.t))
 
